@@ -88,6 +88,48 @@ def comb_cases(tier, rng):
         cnt = cb.count_permutations_with_copies(q, m, q * m)
         add("prefix_with_copies", {"q": q, "counters": [m] * q, "first_n": q * m}, cnt,
             lambda j, q=q, m=m: cb.construct_permutation_with_copies(j, q, m), ident="construct_permutation_with_copies q=%d m=%d" % (q, m))
+    # ONE PermutationMemo serving several prefix lengths (the memo is hidden state of the unranking functions): descending,
+    # ascending and interleaved orders of (length, index); every length's results are judged as before, so an answer
+    # that depends on what the memo saw earlier shows up as a duplicate / missing / invalid arrangement
+    shared_sets = [(2, [2, 2]), (2, [3, 3]), (3, [2, 2, 2]), (3, [1, 2, 3]), (2, [1, 3]), (3, [2, 1, 2])]
+    for q, counters in shared_sets:
+        uniform = len(set(counters)) == 1
+        arg = counters[0] if uniform else None
+        tot = sum(counters)
+        lens = [n for n in range(1, tot + 1) if q ** n <= 3000]
+        for order_name, order in (("descending", sorted(lens, reverse=True)), ("ascending", sorted(lens)),
+                                  ("zigzag", [x for pair in zip(sorted(lens, reverse=True), sorted(lens)) for x in pair])):
+            memo = cb.PermutationMemo()
+            for first_n in order:
+                cs_arg = arg if uniform else list(counters)
+                cnt = cb.count_prefixes_of_permutations_with_copies(q, cs_arg, first_n, memo)
+                add("prefix_with_copies", {"q": q, "counters": counters, "first_n": first_n}, cnt,
+                    lambda j, q=q, cs_arg=cs_arg, first_n=first_n, memo=memo:
+                        cb.compute_jth_prefix_of_permutations_with_copies(q, (cs_arg if isinstance(cs_arg, int) else list(cs_arg)), first_n, j, memo),
+                    ident="shared memo %s counters=%s first_n=%d" % (order_name, counters, first_n))
+        # interleaved: index by index, alternating between two lengths on one memo
+        if len(lens) >= 2:
+            a_len, b_len = lens[-1], lens[-2]
+            memo = cb.PermutationMemo()
+            cs_arg = arg if uniform else list(counters)
+            ca = cb.count_prefixes_of_permutations_with_copies(q, cs_arg, a_len, memo)
+            cbn = cb.count_prefixes_of_permutations_with_copies(q, cs_arg, b_len, memo)
+            ra = {"kind": "prefix_with_copies", "params": {"q": q, "counters": counters, "first_n": a_len}, "count": ca, "exhaustive": True,
+                  "results": [], "meta": {"id": "shared memo interleaved counters=%s first_n=%d" % (counters, a_len)}}
+            rb = {"kind": "prefix_with_copies", "params": {"q": q, "counters": counters, "first_n": b_len}, "count": cbn, "exhaustive": True,
+                  "results": [], "meta": {"id": "shared memo interleaved counters=%s first_n=%d" % (counters, b_len)}}
+            try:
+                for j in range(max(ca, cbn)):
+                    if j < ca:
+                        ra["results"].append(list(cb.compute_jth_prefix_of_permutations_with_copies(
+                            q, (cs_arg if isinstance(cs_arg, int) else list(cs_arg)), a_len, j, memo)))
+                    if j < cbn:
+                        rb["results"].append(list(cb.compute_jth_prefix_of_permutations_with_copies(
+                            q, (cs_arg if isinstance(cs_arg, int) else list(cs_arg)), b_len, j, memo)))
+            except Exception as e:
+                ra["meta"]["raised"] = "%s at j=%d: %s" % (type(e).__name__, j, str(e)[:100])
+            cases.append(ra)
+            cases.append(rb)
     # larger random tuples: membership and injectivity on sampled indices only
     nl = 10 if tier == "quick" else 60
     for _ in range(nl):
